@@ -661,6 +661,10 @@ fn stray_files() -> Vec<(&'static str, Vec<u8>)> {
         ("wal-99999999999999999999", vec![0u8; FILE]),
         ("wal-00000000000000000007", vec![]),
         ("wal-0000000000000000000x", vec![7u8; BLOCK]),
+        // 24 bytes (the length of a WAL file name) of multi-byte UTF-8: no char boundary at byte 4
+        ("\u{65e5}\u{672c}\u{8a9e}\u{306e}\u{30d5}\u{30a1}\u{30a4}\u{30eb}", vec![7u8; 10]),
+        ("wal\u{e9}0000000000000000001", vec![0u8; FILE]),
+        ("wal-000000000000000000\u{0663}", vec![1u8; BLOCK]),
     ]
 }
 
